@@ -147,4 +147,13 @@ def build_pool(d):
                        'ffi1001')
     pool['ffi1001_ict'] = (cp('icarttfiles/test.ffi1001', 's6.ict'),
                            'ffi1001')
+    # the SAME file under a second name (a hard link) whose suffix names the
+    # other format with this layout: what is selected depends on the name and
+    # the content given, not on the inode having been opened before
+    lk = os.path.join(d, 's7.vertical_diffusivity')
+    try:
+        os.link(pool['humidity'][0], lk)
+    except OSError:
+        os.symlink(pool['humidity'][0], lk)
+    pool['humidity_link_kv'] = (lk, 'vertical_diffusivity')
     return pool
